@@ -126,7 +126,13 @@ fn facets(ev: &Value, ex: &Value) -> Vec<(String, Value, Value, bool)> {
 
     if !expect_panic && same_keyset {
         eq("ret", ex["ret"].clone(), ev["ret"].clone());
-        eq("dropped", sorted(&norm(&ex["dropped"])), sorted(&norm(&ev["dropped"])));
+        // type shapes without drop glue: the end of an untracked object is inferred (neither
+        // stored nor handed out), which cannot tell a leaked object from a dropped one
+        let inferred = !(TRACK_K && TRACK_V)
+            && !ex["leaked"].as_array().map(|v| v.is_empty()).unwrap_or(true);
+        if !inferred {
+            eq("dropped", sorted(&norm(&ex["dropped"])), sorted(&norm(&ev["dropped"])));
+        }
         eq("handed", sorted(&ex["handed"]), sorted(&ev["handed"]));
     }
 
